@@ -1,8 +1,14 @@
 package main
 
 import (
+	"fmt"
+
 	stackage "github.com/JesseCoretta/go-stackage"
 )
+
+// primeFailed: set when the priming calls themselves show a violation (a converter accepted what is not a Stack /
+// Condition, or one of the calls panicked); every case of the run then reports it
+var primeFailed string
 
 // primeConverters: whether a value is a Stack / Condition (alias) is a question about that value, not about its type, its
 // type's name or what was seen of that type earlier in the process. Before the cases of a run (and every so often between
@@ -28,13 +34,49 @@ func primeConverters() {
 	)
 	vals := []any{zs, zc, zas, zss, zac, zsc, np1, np2, np3, np4, np5, np6, &zs, &zc, &zas, &zss, &zac, &zsc, &np2, &np5, nil,
 		Strg{}, &Strg{}, Opq{}, UOp{}, (*UOp)(nil), LOp(nil), []any{}, []any(nil), map[string]int(nil), (func())(nil), 0, "", struct{}{}}
-	for _, v := range vals {
+	for i, v := range vals {
 		func() {
-			defer func() { recover() }()
-			stackage.ConvertStack(v)
-			stackage.ConvertCondition(v)
+			defer func() {
+				if recover() != nil && primeFailed == "" {
+					primeFailed = fmt.Sprintf("converter panicked on value #%d (%T)", i, v)
+				}
+			}()
+			// nil, zero-valued instances, pointers to them and unrelated values: none of them is a Stack or a Condition
+			if _, ok := stackage.ConvertStack(v); ok && primeFailed == "" {
+				primeFailed = fmt.Sprintf("ConvertStack accepted value #%d (%T)", i, v)
+			}
+			if _, ok := stackage.ConvertCondition(v); ok && primeFailed == "" {
+				primeFailed = fmt.Sprintf("ConvertCondition accepted value #%d (%T)", i, v)
+			}
 		}()
 	}
+	// a freed instance behind a pointer is a zero instance behind a pointer
+	func() {
+		defer func() {
+			if recover() != nil && primeFailed == "" {
+				primeFailed = "a pointer to a freed instance made a call panic"
+			}
+		}()
+		fs := stackage.And().Push(1)
+		ps := &fs
+		ps.Free()
+		fc := stackage.Cond("k", stackage.Eq, 1)
+		pc := &fc
+		pc.Free()
+		if _, ok := stackage.ConvertStack(ps); ok && primeFailed == "" {
+			primeFailed = "ConvertStack accepted a pointer to a freed Stack"
+		}
+		if _, ok := stackage.ConvertCondition(pc); ok && primeFailed == "" {
+			primeFailed = "ConvertCondition accepted a pointer to a freed Condition"
+		}
+		live := stackage.And().Push(1, ps, pc)
+		_ = live.String()
+		live.Unmarshal()
+		live.Traverse(1, 0)
+		live.IsEqual(ps)
+		live.Transfer(ps)
+		stackage.Cond("k", stackage.Eq, 1).IsEqual(pc)
+	}()
 	for _, mk := range []func(...int) stackage.Stack{stackage.And, stackage.Or, stackage.Not, stackage.List, stackage.Basic} {
 		func() {
 			defer func() { recover() }()
